@@ -80,3 +80,23 @@ pub proof fn lemma_resolve_step(s: Seq<char>)
     if s.len() >= 2 { assert(s.skip(1).skip(1) =~= s.skip(2)); }
     if s.len() >= 4 { assert(s.skip(1).skip(1).skip(1).skip(1) =~= s.skip(4)); }
 }
+
+/// the meaning of an `(escaped)` expression: both stages
+pub open spec fn decode(s: Seq<char>) -> Option<Seq<u8>> { resolve(unesc(s)) }
+
+// ------------------------------------------------------------------ encoder side
+pub open spec fn hexdigit(d: int) -> char {
+    if d == 0 { '0' } else if d == 1 { '1' } else if d == 2 { '2' } else if d == 3 { '3' } else if d == 4 { '4' }
+    else if d == 5 { '5' } else if d == 6 { '6' } else if d == 7 { '7' } else if d == 8 { '8' } else if d == 9 { '9' }
+    else if d == 10 { 'a' } else if d == 11 { 'b' } else if d == 12 { 'c' } else if d == 13 { 'd' } else if d == 14 { 'e' } else { 'f' }
+}
+/// `{:02x}` of a byte
+pub open spec fn hex2(b: u8) -> Seq<char> { seq![hexdigit(b as int / 16), hexdigit(b as int % 16)] }
+/// one byte, ascii mode (the table in `byte_to_ascii`)
+pub open spec fn enc_a(b: u8) -> Seq<char> {
+    if b == 10 { seq!['\\', 'n'] } else if b == 13 { seq!['\\', 'r'] } else if b == 9 { seq!['\\', 't'] }
+    else if b == 7 { seq!['\\', 'a'] } else if b == 8 { seq!['\\', 'b'] } else if b == 12 { seq!['\\', 'f'] }
+    else if b == 11 { seq!['\\', 'v'] } else if b == 92 { seq!['\\', '\\'] }
+    else if 0x20 <= b <= 0x7e { seq![b as char] }
+    else { seq!['\\', 'x'] + hex2(b) }
+}
